@@ -20,7 +20,7 @@ fn main() {
     let eng: u64 = a[2].parse().expect("engine_tag");
     let first: u64 = a[3].parse().expect("first_index");
     let count: u64 = a[4].parse().expect("count");
-    let prof = match a[5].as_str() { "full" => Profile::Full, "light" => Profile::Light, "tiny" => Profile::Tiny, "cover" => Profile::Cover, "crash" => Profile::Crash, "ranges" => Profile::Ranges, "pairs" => Profile::Pairs, "xmatch" => Profile::Xmatch, "long" => Profile::Long, "crowd" => Profile::Crowd, _ => { eprintln!("bad profile"); std::process::exit(2) } };
+    let prof = match a[5].as_str() { "full" => Profile::Full, "light" => Profile::Light, "tiny" => Profile::Tiny, "cover" => Profile::Cover, "crash" => Profile::Crash, "ranges" => Profile::Ranges, "pairs" => Profile::Pairs, "xmatch" => Profile::Xmatch, "long" => Profile::Long, "crowd" => Profile::Crowd, "twins" => Profile::Twins, _ => { eprintln!("bad profile"); std::process::exit(2) } };
     for i in first..first + count {
         let s = derive_seed(vs, eng, i);
         println!("{} {} {}", i, s, encode(&generate_indexed(s, i, prof)));
